@@ -178,7 +178,7 @@ claim("C10",
       "I/O (TCP/asyncio).", C_NOTE, C_TECH, "DESIGN.md section 7, C10")
 claim("C16",
       "Rocq theorems: C16_step (the triple appended to the trajectory is produced in the same step and with the same reward as the OK "
-      "response), C16_refused, C16_frame, C16_handout, C16_files; for every reachable state: C16_wf (one more state than actions, as many rewards "
+      "response), C16_refused, C16_frame, C16_handout, C16_files, C16_files_exact / C16_files_frame (the reset task appends exactly one record per agent in the game, nothing else ever writes); for every reachable state: C16_wf (one more state than actions, as many rewards "
       "as actions), C16_one_label (one label leaves a trajectory alone, appends exactly the answered triple, or restarts it). Monitor: last_trajectory of every RESET_DONE compared with the log "
       "of OK responses the harness received; trajectory files compared with the model after every step (sessions run in a scratch "
       "working directory without a trajectories folder).", C_NOTE, C_TECH, "DESIGN.md section 7, C16")
